@@ -261,6 +261,10 @@ def main(argv=None):
             'bounded_stand_ins': bounded,
             'extraction_drops': getattr(mod, 'DROPS', 'docstrings, comments, type annotations, warnings.warn calls, f-string contents'),
             'not_decided_clauses': getattr(mod, 'NOT_DECIDED', []),
+            'job_notes': sorted({n for r in main_results for n in r.get('notes', [])}),
+            'extraction_normalisation': 'locals of a function are alpha-renamed back to the names pinned in contracts/pinned_locals.json when they '
+                                        'differ from them only by name (pyvc/alpha.py); renamed in this run: '
+                                        + (json.dumps(sorted({json.dumps(x) for r in main_results for x in r.get('renamed_locals', [])})) or '[]'),
             'samples': samples,
             'explanation': getattr(mod, 'EXPLANATION', ''),
         },
